@@ -320,3 +320,107 @@ func TestVFC09Concurrent(t *testing.T) {
 		}
 	})
 }
+
+// TestVFC09ResetVsFlush: a statistics reset through the API while the hourly
+// worker is flushing.  Everything counted before the reset began must be gone
+// afterwards, whatever the worker was doing: the totals then equal what was
+// counted after the reset returned.
+func TestVFC09ResetVsFlush(t *testing.T) {
+	vfkit.Begin(t)
+	rapid.Check(t, func(t *rapid.T) {
+		start := uint32(480_000 + rapid.IntRange(0, 47).Draw(t, "start_hour_offset"))
+		before := rapid.IntRange(1, 40).Draw(t, "updates_before")
+		after := rapid.IntRange(0, 20).Draw(t, "updates_after")
+		steps := rapid.IntRange(1, 6).Draw(t, "hour_steps_during_reset")
+		delay := rapid.IntRange(0, 200).Draw(t, "yields_before_reset")
+		restart := rapid.Bool().Draw(t, "restart_at_end")
+
+		hst := vfC09NewHist(t, start, 24, true)
+		defer hst.x.destroy()
+		s := hst.x.s
+		upd := func(n int, dom string) {
+			for i := 0; i < n; i++ {
+				s.Update(&Entry{Result: RNotFiltered, Client: vfC09Clients[i%len(vfC09Clients)], Domain: dom, ProcessingTime: time.Millisecond})
+			}
+		}
+		upd(before, "before.reset.test")
+
+		var wg sync.WaitGroup
+		begin := make(chan struct{})
+		var resetCode atomic.Int64
+		wg.Add(2)
+		var resetDone atomic.Bool
+		go func() {
+			defer wg.Done()
+			<-begin
+			// the worker polls; while the database is away (a reset in
+			// progress) it polls without sleeping, as periodicFlush does
+			for k := 0; k < steps; k++ {
+				hst.x.clock.Add(1)
+				for i := 0; i < 3 || (!resetDone.Load() && i < 200000); i++ {
+					if _, sleepFor := s.flush(); sleepFor > 0 && resetDone.Load() {
+						break
+					}
+				}
+			}
+		}()
+		go func() {
+			defer wg.Done()
+			<-begin
+			for i := 0; i < delay; i++ {
+				runtime.Gosched()
+			}
+			code, _, _ := hst.x.do(http.MethodPost, "/control/stats_reset", "")
+			resetCode.Store(int64(code))
+			resetDone.Store(true)
+		}()
+		close(begin)
+		done := make(chan struct{})
+		go func() { wg.Wait(); close(done) }()
+		select {
+		case <-done:
+		case <-time.After(90 * time.Second):
+			hst.x.s = nil
+			t.Fatalf("stall: a reset and %d hour steps of the flush worker did not finish in 90 s", steps)
+		}
+		if resetCode.Load() != http.StatusOK {
+			t.Fatalf("POST /control/stats_reset: status %d", resetCode.Load())
+		}
+		// the worker's remaining polls of that hour
+		s.flush()
+		upd(after, "after.reset.test")
+
+		check := func(when string) {
+			code, out, err := hst.x.do(http.MethodGet, "/control/stats", "")
+			if err != nil || code != http.StatusOK {
+				t.Fatalf("GET /control/stats %s: %d %s %v", when, code, out, err)
+			}
+			o, perr := vfC09ParseConc(out)
+			if perr != nil {
+				t.Fatalf("%s: %v", when, perr)
+			}
+			if o.tot[vfC09Tot] != uint64(after) {
+				t.Fatalf("%s: num_dns_queries = %d; %d queries were counted before POST /control/stats_reset (which returned 200 while the "+
+					"flush worker was stepping %d hours) and %d after it: want %d", when, o.tot[vfC09Tot], before, steps, after, after)
+			}
+		}
+		check("after the reset")
+		if restart {
+			if err := s.Close(); err != nil {
+				t.Fatalf("clean shutdown failed: %v", err)
+			}
+			hst.x.s = nil
+			if err := hst.x.open(hst.m.limit, true); err != nil {
+				t.Fatalf("restart failed: %v", err)
+			}
+			check("after the reset and a restart")
+		}
+
+		vfC09.Eval()
+		vfC09.Class("conc:reset_during_flush")
+		vfC09.Nontrivial(fmt.Sprintf("reset_vs_flush|%d|%d|%d|%d", before, after, steps, delay))
+		if vfC09.WantSample("reset_vs_flush") {
+			vfC09.Sample("reset_vs_flush", map[string]any{"counted_before": before, "counted_after": after, "hour_steps_during_reset": steps})
+		}
+	})
+}
